@@ -19,6 +19,7 @@ type obs struct {
 	panicked bool
 	what     string
 	leaked   string
+	hangDump string
 }
 
 type checker struct {
@@ -55,7 +56,7 @@ func evaluate(o *obs) ([]Finding, map[string]int) {
 		out = append(out, Finding{"panic", "the call panicked on the caller's goroutine: " + o.what})
 	}
 	if !o.returned {
-		out = append(out, Finding{"hang", "every started member has returned and the process is quiescent, but the call has not returned"})
+		out = append(out, Finding{"hang", "every started member has returned and the process is quiescent, but the call has not returned; goroutines of the scenario:\n" + o.hangDump})
 	}
 	if o.leaked != "" {
 		out = append(out, Finding{"leak", "goroutines with library frames at the quiescent point after every gate was released and the call returned:\n" + o.leaked})
@@ -221,7 +222,11 @@ func (c *checker) run() {
 		}
 	}
 	if c.s.kind == kOne && firstSucc < 0 && len(retOrder) < n {
-		c.fail("order", "no member succeeded but only %d of %d members were tried", len(retOrder), n)
+		if parentCancel {
+			c.counts["one/stopped-after-caller-cancel"]++ // giving up once the caller cancelled is not excluded by the statement
+		} else {
+			c.fail("order", "no member succeeded but only %d of %d members were tried", len(retOrder), n)
+		}
 	}
 
 	res := o.res
